@@ -214,19 +214,20 @@ ClauseSeq(b, d) ==
                      \o joins \o (IF b.pre # <<>> THEN <<"PREWHERE">> ELSE <<>>) \o whr
                      \o (IF b.grp # <<>> THEN <<"GROUP BY">> ELSE <<>>) \o (IF b.hav # <<>> THEN <<"HAVING">> ELSE <<>>)
                      \o ord \o pagsel \o (IF b.forupd THEN <<"FOR UPDATE">> ELSE <<>>)
+             rets == IF b.ret # <<>> /\ d = "postgresql" THEN <<"RETURNING">> ELSE <<>>
              ocs == IF b.oc /\ d # "mysql" /\ (b.ocnothing \/ b.ocupd # <<>>) THEN <<"ON CONFLICT">> \o (IF b.ocupd # <<>> THEN <<"DO UPDATE">> ELSE <<"DO NOTHING">>)
                     ELSE IF b.oc /\ d = "mysql" /\ b.ocupd # <<>> THEN <<"ON DUPLICATE KEY UPDATE">> ELSE <<>>
          IN
          IF k = "UPDATE" THEN
              (IF d \in {"postgresql", "sqlite"}
               THEN <<"UPDATE", "SET">> \o (IF b.from # <<>> \/ b.joins # <<>> THEN <<"FROM">> ELSE <<>>) \o joins \o whr
-                   \o ord \o (IF b.lim >= 0 THEN <<"PAG">> ELSE <<>>)
+                   \o ord \o (IF b.lim >= 0 THEN <<"PAG">> ELSE <<>>) \o rets
               ELSE <<"UPDATE">> \o joins \o <<"SET">> \o from \o whr
                    \o (IF d = "mysql" THEN ord \o (IF b.lim >= 0 THEN <<"PAG">> ELSE <<>>) ELSE <<>>))
-         ELSE IF k = "DELETE" THEN <<"DELETE">> \o from \o tail
+         ELSE IF k = "DELETE" THEN <<"DELETE">> \o from \o tail \o rets
          ELSE IF k = "INSERT" THEN
-             (IF b.vals # <<>> THEN <<(IF b.replace THEN "REPLACE INTO" ELSE "INSERT INTO"), "VALUES">> \o ocs
-              ELSE <<(IF b.replace THEN "REPLACE INTO" ELSE "INSERT INTO"), "SELECT">> \o from \o tail \o ocs)
+             (IF b.vals # <<>> THEN <<(IF b.replace THEN "REPLACE INTO" ELSE "INSERT INTO"), "VALUES">> \o ocs \o rets
+              ELSE <<(IF b.replace THEN "REPLACE INTO" ELSE "INSERT INTO"), "SELECT">> \o from \o tail \o ocs \o rets)
          ELSE <<"SELECT">> \o (IF b.ins # "" THEN <<"INTO">> ELSE <<>>) \o from \o tail \o ocs
 
 (***************************************************************************)
